@@ -73,15 +73,15 @@ func call(m int, text []rune, forceRunes bool, pat []rune, cs, norm, fwd, withPo
 }
 
 type checker struct {
-	r      *vk.Run
-	prop   string
-	scheme *Scheme
-	rng    *rand.Rand
-	dirty  *util.Slab
-	fresh  func() *util.Slab
-	small  *util.Slab
-	n      int
-	clean  *util.Slab
+	r                          *vk.Run
+	prop                       string
+	scheme                     *Scheme
+	rng                        *rand.Rand
+	dirty                      *util.Slab
+	fresh                      func() *util.Slab
+	small                      *util.Slab
+	n                          int
+	clean                      *util.Slab
 	cleanDirty16, cleanDirty32 int
 }
 
